@@ -60,7 +60,8 @@ def make_replayer():
             want = ['empty-rows'] if 'empty-rows' in ob.oid else (
                 ['ranges'] if ':rows:' in ob.oid else ['bounds'])
         hits = {k: v for k, v in bat.result.items() if k in want}
-        info = {'battery': 'engine/replay/mps_battery.py on an overlay '
+        info = {'rerun': {'battery': 'mps', 'oracles': want},
+                'battery': 'engine/replay/mps_battery.py on an overlay '
                 'build of the current tree (round trips compared by '
                 'evaluation, hand-written files against the format '
                 'definition)', 'oracles': want, 'failing_cases': hits,
